@@ -1,0 +1,358 @@
+//! Verification-only wrappers over crate-private API.
+//!
+//! Compiled only with `--cfg divan_verif` (never in a normal build). Nothing
+//! here changes behaviour: it builds the same `SharedContext`/`BenchContext`
+//! as `benchmark::tests::test_bencher` does and copies crate-private results
+//! into plain structs an external harness can read.
+
+#![allow(missing_docs)]
+
+use std::{
+    collections::HashMap,
+    num::{NonZeroU64, NonZeroUsize},
+    panic::AssertUnwindSafe,
+    sync::Mutex,
+    time::Duration,
+};
+
+use crate::{
+    alloc::{AllocOp, ThreadAllocInfo},
+    benchmark::{BenchContext, BenchOptions},
+    config::Action,
+    counter::{
+        BytesCount, BytesFormat, CharsCount, CounterSet, CyclesCount,
+        ItemsCount, KnownCounterKind,
+    },
+    divan::SharedContext,
+    stats::Stats,
+    time::{FineDuration, TimedOverhead, Timer, TscTimestamp},
+    tree_painter::{TreeColumn, TreePainter},
+    util::thread::ThreadPool,
+    Bencher,
+};
+
+/// Configuration of one run of the sampling loop.
+#[derive(Clone, Debug, Default)]
+pub struct LoopCfg {
+    pub sample_count: Option<u32>,
+    pub sample_size: Option<u32>,
+    pub threads: usize,
+    pub test_mode: bool,
+    pub min_time: Option<Duration>,
+    pub max_time: Option<Duration>,
+    pub skip_ext_time: Option<bool>,
+    /// Constant counters by kind: bytes, chars, cycles, items.
+    pub const_counters: [Option<u64>; 4],
+    /// `Some(f)`: `Timer::Tsc { frequency: f }`; `None`: `Timer::Os`.
+    pub tsc_frequency: Option<u64>,
+}
+
+/// Plain copy of a `ThreadAllocInfo`.
+#[derive(Clone, Copy, Debug, Default, PartialEq, Eq)]
+pub struct AllocPlain {
+    /// `(count, size)` for grow, shrink, alloc, dealloc.
+    pub tallies: [(u64, u64); 4],
+    pub current_count: i64,
+    pub max_count: i64,
+    pub current_size: i64,
+    pub max_size: i64,
+}
+
+impl AllocPlain {
+    fn of(info: &ThreadAllocInfo) -> Self {
+        Self {
+            tallies: AllocOp::ALL.map(|op| {
+                let t = info.tallies.get(op);
+                (t.count as u64, t.size as u64)
+            }),
+            current_count: info.current_count as i64,
+            max_count: info.max_count as i64,
+            current_size: info.current_size as i64,
+            max_size: info.max_size as i64,
+        }
+    }
+}
+
+/// Plain copy of `Stats`. Arrays of four are fastest, slowest, median, mean.
+#[derive(Clone, Debug, PartialEq)]
+pub struct StatsPlain {
+    pub sample_count: u32,
+    pub iter_count: u64,
+    pub time: [u128; 4],
+    pub max_alloc_count: [f64; 4],
+    pub max_alloc_size: [f64; 4],
+    /// Indexed by grow, shrink, alloc, dealloc; then `(count, size)`.
+    pub alloc_tallies: [([f64; 4], [f64; 4]); 4],
+    /// Indexed by bytes, chars, cycles, items.
+    pub counts: [Option<[u64; 4]>; 4],
+}
+
+/// Owns the crate-private `Stats` so that it can be painted later.
+pub struct StatsHandle(Stats);
+
+fn set4<T: Copy>(s: &crate::stats::StatsSet<T>) -> [T; 4] {
+    [s.fastest, s.slowest, s.median, s.mean]
+}
+
+impl StatsHandle {
+    pub fn plain(&self) -> StatsPlain {
+        let s = &self.0;
+        StatsPlain {
+            sample_count: s.sample_count,
+            iter_count: s.iter_count,
+            time: set4(&s.time).map(|d| d.picos),
+            max_alloc_count: set4(&s.max_alloc.count),
+            max_alloc_size: set4(&s.max_alloc.size),
+            alloc_tallies: AllocOp::ALL.map(|op| {
+                let t = s.alloc_tallies.get(op);
+                (set4(&t.count), set4(&t.size))
+            }),
+            counts: KnownCounterKind::ALL
+                .map(|k| s.get_counts(k).map(|c| set4(c).map(|v| v as u64))),
+        }
+    }
+
+    /// Prints the statistics row(s) to stdout exactly as a benchmark run
+    /// does.
+    pub fn paint(&self, binary_bytes: bool) {
+        let mut painter = TreePainter::new(12, [0; TreeColumn::COUNT]);
+        painter.start_leaf("verif", true);
+        painter.finish_leaf(
+            true,
+            &self.0,
+            if binary_bytes {
+                BytesFormat::Binary
+            } else {
+                BytesFormat::Decimal
+            },
+        );
+    }
+}
+
+/// Everything observable after one run of the sampling loop.
+pub struct LoopOutcome {
+    pub did_run: bool,
+    pub sample_size: u32,
+    /// Stored sample durations in picoseconds, in recording order.
+    pub durations: Vec<u128>,
+    /// Stored allocation info per sample (absent = nothing tallied).
+    pub allocs: Vec<Option<AllocPlain>>,
+    /// Stored counter values by kind (bytes, chars, cycles, items).
+    pub counts: [Vec<u64>; 4],
+    pub uses_input_counts: [bool; 4],
+    pub time_samples_capacity: usize,
+    /// `compute_stats()` result (bench mode, after the loop ran), or the
+    /// message of the panic it raised.
+    pub stats: Option<Result<StatsHandle, String>>,
+    /// Message of a panic raised on the calling thread by the closure that
+    /// was given the `Bencher`.
+    pub caller_panic: Option<String>,
+}
+
+fn panic_message(p: Box<dyn std::any::Any + Send>) -> String {
+    if let Some(s) = p.downcast_ref::<&'static str>() {
+        (*s).to_string()
+    } else if let Some(s) = p.downcast_ref::<String>() {
+        s.clone()
+    } else {
+        "<non-string panic payload>".to_string()
+    }
+}
+
+/// Runs `f` with a `Bencher` set up from `cfg` (the same way
+/// `Divan::run_bench_entry` and `benchmark::tests::test_bencher` do), then
+/// computes statistics as a benchmark run would.
+pub fn with_bencher(
+    cfg: &LoopCfg,
+    f: &mut dyn FnMut(Bencher),
+) -> LoopOutcome {
+    let mut counters = CounterSet::default();
+    let [bytes, chars, cycles, items] = cfg.const_counters;
+    if let Some(n) = bytes {
+        counters.insert(BytesCount::new(n));
+    }
+    if let Some(n) = chars {
+        counters.insert(CharsCount::new(n));
+    }
+    if let Some(n) = cycles {
+        counters.insert(CyclesCount::new(n));
+    }
+    if let Some(n) = items {
+        counters.insert(ItemsCount::new(n));
+    }
+
+    let options = BenchOptions {
+        sample_count: cfg.sample_count,
+        sample_size: cfg.sample_size,
+        min_time: cfg.min_time,
+        max_time: cfg.max_time,
+        skip_ext_time: cfg.skip_ext_time,
+        counters,
+        ..BenchOptions::default()
+    };
+
+    let action = if cfg.test_mode { Action::Test } else { Action::Bench };
+    let timer = match cfg.tsc_frequency {
+        Some(f) => Timer::Tsc {
+            frequency: NonZeroU64::new(f).expect("non-zero frequency"),
+        },
+        None => Timer::Os,
+    };
+
+    let shared_context =
+        SharedContext { action, timer, thread_pool: ThreadPool::new() };
+
+    let mut bench_context = BenchContext::new(
+        &shared_context,
+        &options,
+        NonZeroUsize::new(cfg.threads.max(1)).unwrap(),
+    );
+
+    let caller_panic = std::panic::catch_unwind(AssertUnwindSafe(|| {
+        f(Bencher::new(&mut bench_context))
+    }))
+    .err()
+    .map(panic_message);
+
+    let should_compute_stats = caller_panic.is_none()
+        && bench_context.did_run
+        && shared_context.action.is_bench();
+
+    let stats = should_compute_stats.then(|| {
+        std::panic::catch_unwind(AssertUnwindSafe(|| {
+            StatsHandle(bench_context.compute_stats())
+        }))
+        .map_err(panic_message)
+    });
+
+    let (samples, counter_collection) = bench_context.verif_parts();
+
+    LoopOutcome {
+        did_run: bench_context.did_run,
+        sample_size: samples.sample_size,
+        durations: samples
+            .time_samples
+            .iter()
+            .map(|s| s.duration.picos)
+            .collect(),
+        allocs: (0..samples.time_samples.len())
+            .map(|i| {
+                samples
+                    .alloc_info_by_sample
+                    .get(&(i as u32))
+                    .map(AllocPlain::of)
+            })
+            .collect(),
+        counts: KnownCounterKind::ALL.map(|k| {
+            counter_collection.counts(k).iter().map(|&c| c as u64).collect()
+        }),
+        uses_input_counts: KnownCounterKind::ALL
+            .map(|k| counter_collection.uses_input_counts(k)),
+        time_samples_capacity: samples.time_samples.capacity(),
+        stats,
+        caller_panic,
+    }
+}
+
+/// The broadcast thread pool.
+pub struct Pool(ThreadPool);
+
+impl Pool {
+    pub fn new() -> Self {
+        Self(ThreadPool::new())
+    }
+
+    pub fn broadcast<F>(&self, aux_threads: usize, task: F)
+    where
+        F: Sync + Fn(usize),
+    {
+        self.0.broadcast(aux_threads, task)
+    }
+
+    pub fn par_extend<T, F>(
+        &self,
+        vec: &mut Vec<Option<T>>,
+        aux_threads: usize,
+        task: F,
+    ) where
+        F: Sync + Fn(usize) -> T,
+        T: Sync + Send,
+    {
+        self.0.par_extend(vec, aux_threads, task)
+    }
+
+    pub fn aux_thread_count(&self) -> usize {
+        self.0.verif_aux_thread_count()
+    }
+}
+
+/// Copies the current thread's allocation tally and clears it.
+pub fn take_thread_tally() -> Option<AllocPlain> {
+    let mut info = ThreadAllocInfo::current()?;
+    // SAFETY: We have exclusive access.
+    let info = unsafe { info.as_mut() };
+    let plain = AllocPlain::of(info);
+    info.clear();
+    Some(plain)
+}
+
+/// Copies the current thread's allocation tally without clearing it.
+pub fn peek_thread_tally() -> Option<AllocPlain> {
+    let info = ThreadAllocInfo::try_current()?;
+    // SAFETY: We have exclusive access.
+    Some(AllocPlain::of(unsafe { info.as_ref() }))
+}
+
+/// `TscTimestamp::duration_since` in picoseconds.
+pub fn tsc_duration(earlier: u64, later: u64, frequency: u64) -> u128 {
+    TscTimestamp { value: later }
+        .duration_since(
+            TscTimestamp { value: earlier },
+            NonZeroU64::new(frequency).expect("non-zero frequency"),
+        )
+        .picos
+}
+
+/// `FineDuration::from(Duration)` in picoseconds.
+pub fn duration_to_picos(duration: Duration) -> u128 {
+    FineDuration::from(duration).picos
+}
+
+/// `Timer::Tsc { frequency }.precision()` in picoseconds.
+pub fn timer_precision(frequency: u64) -> u128 {
+    Timer::Tsc {
+        frequency: NonZeroU64::new(frequency).expect("non-zero frequency"),
+    }
+    .precision()
+    .picos
+}
+
+/// `TimedOverhead::total_overhead` for the given per-operation overheads
+/// (`[sample_loop, tally_alloc, tally_dealloc, tally_realloc]`, picoseconds).
+pub(crate) fn sim_overheads() -> Option<&'static TimedOverhead> {
+    let [sample_loop, tally_alloc, tally_dealloc, tally_realloc] =
+        ::dsim::clock::overheads()?;
+
+    if [sample_loop, tally_alloc, tally_dealloc, tally_realloc] == [0; 4] {
+        return Some(&TimedOverhead::ZERO);
+    }
+
+    // `bench_overheads` hands out `&'static`; intern the few distinct values
+    // simulations use.
+    static INTERNED: Mutex<Option<HashMap<[u128; 4], &'static TimedOverhead>>> =
+        Mutex::new(None);
+
+    let mut interned = INTERNED.lock().unwrap_or_else(|e| e.into_inner());
+    let map = interned.get_or_insert_with(HashMap::new);
+    Some(
+        map.entry([sample_loop, tally_alloc, tally_dealloc, tally_realloc])
+            .or_insert_with(|| {
+                Box::leak(Box::new(TimedOverhead {
+                    sample_loop: FineDuration { picos: sample_loop },
+                    tally_alloc: FineDuration { picos: tally_alloc },
+                    tally_dealloc: FineDuration { picos: tally_dealloc },
+                    tally_realloc: FineDuration { picos: tally_realloc },
+                }))
+            }),
+    )
+}
